@@ -77,7 +77,7 @@ def check_pair(ctx, adef, bdef, tag):
     ctx.tally("hk_mirror_compared")
     # the run of the loop itself: the union calls seen by a spy on networkx's UnionFind against the mirror model
     # driven by the schedule the implementation actually used (symbol iteration order, tie-breaks)
-    problems += hk_trace_problems(ctx, a, b, ta, tb, sy, got[0])
+    trace_problems = hk_trace_problems(ctx, a, b, ta, tb, sy, got[0])
     for name, g, m in zip(NAMES, got, ans):
         m = enc.dec_res(m)
         want = ("ok", m[1] == 1) if m[0] == "ok" else ("err", m[1])
@@ -90,7 +90,13 @@ def check_pair(ctx, adef, bdef, tag):
     nontrivial = not a.isempty() and not b.isempty() and enc.tree(ta) != enc.tree(tb)
     ctx.case((enc.tree(ta), enc.tree(tb)), nontrivial,
              sample={"A": repr(adef), "B": repr(bdef), "answers": dict(zip(NAMES, [g[1] for g in got]))})
-    if problems:
+    if trace_problems and not problems:
+        # same answers, different run: the mirror model no longer describes the code's loop (C06/hk_trace)
+        ctx.violation("C06/hk_trace: the union-find run of DFA.__eq__ differs from the mirror model: " + "; ".join(trace_problems),
+                      {"kind": "pair", "A": repr(adef), "B": repr(bdef), "problems": trace_problems, "tag": tag},
+                      confirmed=False)
+    elif problems:
+        problems += trace_problems
         ctx.violation("DFA comparison disagrees with the language statement: " + "; ".join(problems),
                       {"kind": "pair", "A": repr(adef), "B": repr(bdef), "problems": problems,
                        "distinguishing_word": confirm(a, b, None, sy, word), "tag": tag})
